@@ -13,6 +13,7 @@ type Env struct {
 	NamedComp  []*Decl
 	Structs    []*Decl // subject package structs (all)
 	KeyStructs []*Decl // subject package value-key structs (subset of Structs)
+	PtrKeyStructs []*Decl
 	ExtStructs []*Decl
 	ExtKeys    []*Decl // ext value-key structs
 	ExtBasic   []*Decl
@@ -27,6 +28,7 @@ type EnvOpt struct {
 	NoPrivateExt bool // ext structs have exported fields only
 	MaxStructs   int
 	DistinctExt  bool // imported packages have distinct package names
+	PtrKeys      bool // also declare a key struct that holds a pointer (legal Go map key, compared by identity)
 	NoFloatKeys  bool
 	// Avoid lists finding ids whose region the generator must not enter.
 	Avoid map[string]bool
@@ -116,6 +118,13 @@ func DrawEnv(t *rapid.T, opt EnvOpt) *Env {
 			d.Fields = append(d.Fields, Field{Name: e.fieldName(t, j), Type: e.DrawKey(t, 1)})
 		}
 		e.KeyStructs = append(e.KeyStructs, d)
+		e.Structs = append(e.Structs, d)
+	}
+	if opt.PtrKeys {
+		d := &Decl{Name: "KP0", IsStruct: true, Fields: []Field{
+			{Name: "F0", Type: B(pick(t, "kp0", []string{"int", "string", "uint8"}))},
+			{Name: "F1", Type: PtrTo(B(pick(t, "kp1", []string{"string", "int", "float64", "bool"})))}}}
+		e.PtrKeyStructs = append(e.PtrKeyStructs, d)
 		e.Structs = append(e.Structs, d)
 	}
 	// named composites (over what exists so far)
@@ -318,6 +327,9 @@ func (e *Env) DrawKey(t *rapid.T, depth int) *Type {
 				return NamedT(pick(t, "keynb", e.NamedBasic))
 			}
 		case 4:
+			if len(e.PtrKeyStructs) > 0 && rapid.IntRange(0, 2).Draw(t, "ptrkey") == 0 {
+				return NamedT(e.PtrKeyStructs[0])
+			}
 			if len(e.KeyStructs) > 0 {
 				return NamedT(pick(t, "keystruct", e.KeyStructs))
 			}
